@@ -109,7 +109,8 @@ func NewKEK(i int) *KEK {
 type AuditRec struct {
 	Data     []byte
 	Synced   bool
-	OpSeq    int // sequence number of the client op during which it arrived (0: none)
+	Torn     bool // appended to a torn fragment: not a line of its own in the log
+	OpSeq    int  // sequence number of the client op during which it arrived (0: none)
 	Observer bool
 }
 
@@ -124,6 +125,7 @@ type Sink struct {
 	FailKind int // 0 write error, 1 short write, 2 sync error
 	n        int
 	failSync bool
+	Stream   []byte            // every byte the sink accepted, torn fragments included (an append-only file)
 	OnWrite  func(data []byte) // called before recording (order oracle)
 	OnSync   func()
 }
@@ -154,10 +156,19 @@ func (k *Sink) Write(p []byte) (int, error) {
 		e.S.Fault("audit-short-write")
 		n := len(p) / 2
 		e.auditFailed(p[:n])
+		k.mu.Lock()
+		k.Stream = append(k.Stream, p[:n]...)
+		k.mu.Unlock()
 		return n, io.ErrShortWrite
 	}
 	rec := AuditRec{Data: append([]byte{}, p...), OpSeq: e.curOpSeq()}
 	k.mu.Lock()
+	// the record lands right after whatever the stream already holds: after a
+	// torn fragment it does not start a line of its own
+	if n := len(k.Stream); n > 0 && k.Stream[n-1] != '\n' {
+		rec.Torn = true
+	}
+	k.Stream = append(k.Stream, p...)
 	k.Recs = append(k.Recs, rec)
 	if fail && kind == 2 {
 		k.failSync = true
@@ -280,9 +291,10 @@ type Env struct {
 	Names     []string
 	HTTP      bool
 
-	observing bool
-	parkAudit bool
-	parkHTTP  bool
+	observing    bool
+	auditLatched bool // an audit write failed and the process was not restarted
+	parkAudit    bool
+	parkHTTP     bool
 
 	opMu    sync.Mutex
 	opSeq   int
